@@ -83,18 +83,24 @@ type caseIn struct {
 	Threads [][]opIn `json:"threads"` // conc
 	Scale   int64    `json:"scale"`   // real duration of one model millisecond, in units of 1ms (mem: 1; redis: any, virtual clock)
 	Tol     int64    `json:"tol"`     // tolerance (model ms) for durations returned by GetExpiration
+	Fill    int      `json:"fill"`    // sweep: number of expired entries that make the sweep long
+	Ticker  bool     `json:"ticker"`  // sweep: the StartCleanup goroutine sweeps instead of an explicit CleanupExpired call
 }
 
 type obs []interface{}
 
 type caseOut struct {
 	Obs      []obs    `json:"obs,omitempty"`
-	Ref      []obs    `json:"ref,omitempty"`     // what the reference map answers (after the same projection as Obs in redis mode)
-	RefRaw   []obs    `json:"ref_raw,omitempty"` // redis: the reference map's answers before projection
-	TObs     [][]obs  `json:"tobs,omitempty"`    // conc: per thread
-	Lin      [][2]int `json:"lin,omitempty"`     // conc: a linearization found (thread, index)
-	LateMs   float64  `json:"late_ms"`           // mem: worst lag of an operation behind its nominal time
-	Overlap  int      `json:"overlap,omitempty"` // conc: number of pairs of operations of different threads that overlapped in time
+	Ref      []obs    `json:"ref,omitempty"`      // what the reference map answers (after the same projection as Obs in redis mode)
+	RefRaw   []obs    `json:"ref_raw,omitempty"`  // redis: the reference map's answers before projection
+	RRefRaw  []obs    `json:"rref_raw,omitempty"` // redis/both: the Redis-flavoured reference's answers before projection
+	RObs     []obs    `json:"robs,omitempty"`     // both: redis.Storage's answers (projected)
+	RRef     []obs    `json:"rref,omitempty"`     // both: Redis-flavoured reference (projected)
+	Cross    int      `json:"cross,omitempty"`    // both: calls at which the two real backends were compared with each other
+	TObs     [][]obs  `json:"tobs,omitempty"`     // conc: per thread
+	Lin      [][2]int `json:"lin,omitempty"`      // conc: a linearization found (thread, index)
+	LateMs   float64  `json:"late_ms"`            // mem: worst lag of an operation behind its nominal time
+	Overlap  int      `json:"overlap,omitempty"`  // conc: number of pairs of operations of different threads that overlapped in time
 	PropOK   bool     `json:"prop_ok"`
 	PropMsg  string   `json:"prop_msg,omitempty"`
 	PropKey  string   `json:"prop_key,omitempty"`
@@ -283,6 +289,8 @@ type ref struct {
 	// known deviations of redis.Storage, switched on only to ATTRIBUTE a failure already found against the plain reference
 	quirk map[string]bool
 	scale int64
+	// Redis-flavoured reference: a list / hash that becomes empty ceases to exist
+	emptyAbsent bool
 }
 
 var redisQuirks = []string{"sethash-on-single-field-resets-deadline", "incrby-result-equals-delta-resets-deadline", "cas-ttl-truncated-to-seconds"}
@@ -290,7 +298,7 @@ var redisQuirks = []string{"sethash-on-single-field-resets-deadline", "incrby-re
 func newRef(d int64) *ref { return &ref{m: map[string]*rent{}, now: 1000, d: d} }
 
 func (r *ref) clone() *ref {
-	c := &ref{m: make(map[string]*rent, len(r.m)), now: r.now, d: r.d, quirk: r.quirk, scale: r.scale}
+	c := &ref{m: make(map[string]*rent, len(r.m)), now: r.now, d: r.d, quirk: r.quirk, scale: r.scale, emptyAbsent: r.emptyAbsent}
 	for k, e := range r.m {
 		ne := &rent{exp: e.exp}
 		switch v := e.v.(type) {
@@ -335,6 +343,14 @@ func (r *ref) deadline(ttl int64) int64 {
 }
 
 func (r *ref) step(o opIn) obs {
+	res := r.step0(o)
+	if r.emptyAbsent && o.K != "" && emptyCollection(r.m[o.K]) {
+		delete(r.m, o.K)
+	}
+	return res
+}
+
+func (r *ref) step0(o opIn) obs {
 	e := r.m[o.K]
 	switch o.Op {
 	case "tick":
@@ -664,81 +680,270 @@ func emptyCollection(e *rent) bool {
 	return false
 }
 
-func runRedis(c caseIn) *caseOut {
-	out := &caseOut{PropOK: true, FailAt: -1, ShapeEnd: -1}
+func newRedisRef(scale int64) *ref {
+	q := newRef(defaultTTLms() / scale)
+	q.scale = scale
+	q.emptyAbsent = true
+	return q
+}
+
+// explain a failing Redis history by ONE known deviation of redis.Storage (or all of them): key of the deviation, or ""
+func redisAttribution(c caseIn, scale int64, robs []obs) string {
+	try := [][]string{{redisQuirks[0]}, {redisQuirks[1]}, {redisQuirks[2]}, redisQuirks}
+	for _, qs := range try {
+		q := newRedisRef(scale)
+		q.quirk = map[string]bool{}
+		for _, n := range qs {
+			q.quirk[n] = true
+		}
+		ok := true
+		for i, o := range c.Ops {
+			want := q.step(o)
+			if o.Op != "tick" && canon(projRedis(o.Op, want)) != canon(robs[i]) {
+				ok = false
+				break
+			}
+		}
+		if ok {
+			if len(qs) > 1 {
+				return "redis:several-known-deviations"
+			}
+			return "redis:" + qs[0]
+		}
+	}
+	return ""
+}
+
+type redisSide struct {
+	mr    *miniredis.Miniredis
+	st    *rstore.Storage
+	scale int64
+	rr    *ref // Redis-flavoured reference (empty collection = absent): the predicate for redis.Storage
+}
+
+func newRedisSide(scale int64) *redisSide {
 	mr, err := miniredis.Run()
 	must(err)
-	defer mr.Close()
 	st, err := rstore.New(context.Background(), &rstore.Config{Addr: mr.Addr(), PoolSize: 2})
 	must(err)
-	defer st.Close()
+	return &redisSide{mr: mr, st: st, scale: scale, rr: newRedisRef(scale)}
+}
+func (s *redisSide) close() { s.st.Close(); s.mr.Close() }
+
+// redis: redis.Storage@miniredis judged against the Redis-flavoured reference over the WHOLE history (Redis has no empty
+// lists / hashes: one that becomes empty ceases to exist — Exists false, deadline forgotten — and only that differs from
+// the plain reference; ref_raw keeps the plain reference's answers, rref_raw the Redis-flavoured ones, for the Coq model)
+func runRedis(c caseIn) *caseOut {
+	out := &caseOut{PropOK: true, FailAt: -1, ShapeEnd: -1}
 	scale := c.Scale
 	if scale <= 0 {
 		scale = 1000
 	}
+	side := newRedisSide(scale)
+	defer side.close()
 	r := newRef(defaultTTLms() / scale)
 	tainted := false
 	for i, o := range c.Ops {
 		if o.Op == "tick" {
-			mr.FastForward(ms(o.D, scale))
+			side.mr.FastForward(ms(o.D, scale))
 			r.step(o)
+			side.rr.step(o)
 			out.Obs = append(out.Obs, obs{"ok"})
 			out.Ref = append(out.Ref, obs{"ok"})
 			out.RefRaw = append(out.RefRaw, obs{"ok"})
+			out.RRefRaw = append(out.RRefRaw, obs{"ok"})
 			continue
 		}
-		before := r
+		before := side.rr
 		if !tainted {
-			before = r.clone()
+			before = side.rr.clone()
 		}
-		got := projRedis(o.Op, apply(st, o, scale))
-		raw := r.step(o)
-		out.RefRaw = append(out.RefRaw, raw)
+		got := projRedis(o.Op, apply(side.st, o, scale))
+		out.RefRaw = append(out.RefRaw, r.step(o))
+		raw := side.rr.step(o)
+		out.RRefRaw = append(out.RRefRaw, raw)
 		want := projRedis(o.Op, raw)
 		out.Obs = append(out.Obs, got)
 		out.Ref = append(out.Ref, want)
+		if out.ShapeEnd < 0 && emptyCollection(r.m[o.K]) {
+			out.ShapeEnd = i // from here on the plain and the Redis-flavoured reference may differ
+		}
 		if !tainted && canon(got) != canon(want) {
 			tainted = true
 			out.PropOK = false
 			out.FailAt = i
 			out.PropKey = classify("redis", o, before)
-			out.PropMsg = fmt.Sprintf("redis.Storage op #%d %s(%s) answered %s, a sequential TTL map answers %s", i, o.Op, o.K, canon(got), canon(want))
-		}
-		// Redis has no empty lists / hashes: a collection that becomes empty ceases to exist (Exists is false and its
-		// deadline is forgotten).  The repositories never rely on either; the comparison stops there.
-		if !tainted && emptyCollection(r.m[o.K]) {
-			tainted = true
-			out.ShapeEnd = i
+			out.PropMsg = fmt.Sprintf("redis.Storage op #%d %s(%s) answered %s, a sequential TTL map (empty list/hash = absent) answers %s", i, o.Op, o.K, canon(got), canon(want))
 		}
 	}
 	if !out.PropOK {
-		// is the whole observed history explained by ONE known deviation of redis.Storage (or by all of them)?
-		try := append([][]string{}, [][]string{{redisQuirks[0]}, {redisQuirks[1]}, {redisQuirks[2]}, redisQuirks}...)
-		for _, qs := range try {
-			q := newRef(defaultTTLms() / scale)
-			q.scale = scale
-			q.quirk = map[string]bool{}
-			for _, n := range qs {
-				q.quirk[n] = true
+		if k := redisAttribution(c, scale, out.Obs); k != "" {
+			out.PropKey = k
+		}
+	}
+	return out
+}
+
+// both: ONE history on the real memory.Storage (wall clock) and the real redis.Storage (virtual clock) side by side.
+// Three predicates: memory == reference; redis == Redis-flavoured reference; and memory == redis under the projection at
+// every call where the two references themselves agree (i.e. everywhere except the documented "empty collection" gap).
+func runBoth(c caseIn) *caseOut {
+	out := &caseOut{PropOK: true, FailAt: -1, ShapeEnd: -1}
+	rscale := int64(100)
+	side := newRedisSide(rscale)
+	defer side.close()
+	st := memory.New(context.Background())
+	defer st.Close()
+	r := newRef(defaultTTLms())
+	start := time.Now()
+	var nominal int64
+	fail := func(i int, key, msg string) {
+		if out.PropOK {
+			out.PropOK = false
+			out.FailAt = i
+			out.PropKey = key
+			out.PropMsg = msg
+		}
+	}
+	memTainted, redisTainted := false, false
+	for i, o := range c.Ops {
+		if o.Op == "tick" {
+			nominal += o.D
+			if d := time.Until(start.Add(ms(nominal, 1))); d > 0 {
+				time.Sleep(d)
 			}
-			ok := true
-			for i, o := range c.Ops {
-				want := q.step(o)
-				if o.Op != "tick" && canon(projRedis(o.Op, want)) != canon(out.Obs[i]) {
-					ok = false
-					break
-				}
-				if out.ShapeEnd == i {
-					break
-				}
+			side.mr.FastForward(ms(o.D, rscale))
+			r.step(o)
+			side.rr.step(o)
+			for _, l := range []*[]obs{&out.Obs, &out.Ref, &out.RObs, &out.RRef, &out.RRefRaw} {
+				*l = append(*l, obs{"ok"})
 			}
-			if ok {
-				out.PropKey = "redis:" + qs[0]
-				if len(qs) > 1 {
-					out.PropKey = "redis:several-known-deviations"
-				}
-				break
+			continue
+		}
+		before := r.clone()
+		rbefore := side.rr.clone()
+		got := apply(st, o, 1)
+		late := float64(time.Since(start)-ms(nominal, 1)) / float64(time.Millisecond)
+		if late > out.LateMs {
+			out.LateMs = late
+		}
+		want := r.step(o)
+		rgot := projRedis(o.Op, apply(side.st, o, rscale))
+		rraw := side.rr.step(o)
+		rwant := projRedis(o.Op, rraw)
+		out.Obs = append(out.Obs, got)
+		out.Ref = append(out.Ref, want)
+		out.RObs = append(out.RObs, rgot)
+		out.RRef = append(out.RRef, rwant)
+		out.RRefRaw = append(out.RRefRaw, rraw)
+		if out.ShapeEnd < 0 && emptyCollection(r.m[o.K]) {
+			out.ShapeEnd = i
+		}
+		if !memTainted && !sameObs(got, want, c.Tol) {
+			memTainted = true
+			fail(i, classify("mem", o, before), fmt.Sprintf("memory.Storage op #%d %s(%s) answered %s, a sequential TTL map answers %s", i, o.Op, o.K, canon(got), canon(want)))
+		}
+		if !redisTainted && canon(rgot) != canon(rwant) {
+			redisTainted = true
+			fail(i, classify("redis", o, rbefore), fmt.Sprintf("redis.Storage op #%d %s(%s) answered %s, a sequential TTL map (empty list/hash = absent) answers %s", i, o.Op, o.K, canon(rgot), canon(rwant)))
+		}
+		// cross-backend: only where the two references agree under the projection
+		if !memTainted && !redisTainted && canon(projRedis(o.Op, want)) == canon(rwant) {
+			out.Cross++
+			if canon(projRedis(o.Op, got)) != canon(rgot) {
+				fail(i, classify("cross", o, before), fmt.Sprintf("backends disagree at op #%d %s(%s): memory %s, redis %s", i, o.Op, o.K, canon(projRedis(o.Op, got)), canon(rgot)))
 			}
+		}
+	}
+	if !out.PropOK && redisTainted {
+		if k := redisAttribution(c, rscale, out.RObs); k != "" && len(out.PropKey) > 5 && out.PropKey[:6] == "redis:" {
+			out.PropKey = k
+		}
+	}
+	return out
+}
+
+// sweep: a write issued WHILE a CleanupExpired sweep holds Storage.mu.  N expired entries make the sweep long; the
+// harness polls TryLock until the sweep is inside its critical section and then issues the write on an expired key, which
+// queues on the mutex.  Whatever the order the two take effect in, the written value must be there afterwards (both
+// linearizations of {CleanupExpired || write} ; reads give the same answers): a completed write is never lost.
+// ticker=true: the sweep is the StartCleanup goroutine's instead of an explicit CleanupExpired call.
+func runSweep(c caseIn) *caseOut {
+	out := &caseOut{PropOK: true, FailAt: -1, ShapeEnd: -1}
+	n := c.Fill
+	if n <= 0 {
+		n = 100000
+	}
+	w := c.Ops[0]
+	for attempt := 0; attempt < 4 && out.Overlap == 0; attempt++ {
+		st := memory.New(context.Background())
+		for i := 0; i < n; i++ {
+			must(st.Set("fill:"+strconv.Itoa(i), "x", time.Millisecond))
+		}
+		must(st.Set(w.K, "old", time.Millisecond))
+		time.Sleep(8 * time.Millisecond)
+		done := make(chan struct{})
+		if c.Ticker {
+			st.StartCleanup(2 * time.Millisecond)
+			close(done)
+		} else {
+			go func() { _ = st.CleanupExpired(); close(done) }()
+		}
+		held := false
+		deadline := time.Now().Add(2 * time.Second)
+		for time.Now().Before(deadline) {
+			if st.VerifMuTryLock() {
+				st.VerifMuUnlock()
+				if st.VerifLen() < n/2 {
+					break // the sweep is over: too late for this attempt
+				}
+				continue
+			}
+			held = true
+			break
+		}
+		got := apply(st, w, 1) // queues behind the sweep's critical section
+		<-done
+		if c.Ticker {
+			for i := 0; i < 400 && st.VerifLen() > 8; i++ {
+				time.Sleep(time.Millisecond)
+			}
+			st.StopCleanup()
+		}
+		r := newRef(defaultTTLms())
+		r.step(opIn{Op: "cleanup"})
+		want := r.step(w)
+		out.Obs = []obs{got}
+		out.Ref = []obs{want}
+		if held {
+			out.Overlap = 1
+		}
+		bad := ""
+		if !sameObs(got, want, 0) {
+			bad = fmt.Sprintf("%s(%s) during a sweep answered %s, expected %s", w.Op, w.K, canon(got), canon(want))
+		}
+		for _, rd := range c.Ops[1:] {
+			g := apply(st, rd, 1)
+			x := r.step(rd)
+			out.Obs = append(out.Obs, g)
+			out.Ref = append(out.Ref, x)
+			if bad == "" && !sameObs(g, x, 1000) {
+				bad = fmt.Sprintf("after {CleanupExpired || %s(%s)} both returned, %s(%s) answered %s; every linearization answers %s: the completed write was lost", w.Op, w.K, rd.Op, rd.K, canon(g), canon(x))
+			}
+		}
+		left := st.VerifLen()
+		st.Close()
+		if bad != "" {
+			out.PropOK = false
+			out.PropKey = "mem:write-lost-during-cleanup-sweep"
+			out.PropMsg = bad
+			return out
+		}
+		if left > 8 && bad == "" && !c.Ticker {
+			out.PropOK = false
+			out.PropKey = "mem:cleanup-leaves-expired-entries"
+			out.PropMsg = fmt.Sprintf("CleanupExpired returned with %d physical entries left of %d expired ones", left, n)
+			return out
 		}
 	}
 	return out
@@ -1007,6 +1212,10 @@ func runCase(raw []byte) *caseOut {
 		return runRedis(c)
 	case "conc":
 		return runConc(c)
+	case "both":
+		return runBoth(c)
+	case "sweep":
+		return runSweep(c)
 	}
 	panic("unknown mode " + c.Mode)
 }
@@ -1050,7 +1259,7 @@ func main() {
 				Mode string `json:"mode"`
 			}
 			_ = json.Unmarshal(lines[i], &probe)
-			if probe.Mode == "conc" {
+			if probe.Mode == "conc" || probe.Mode == "sweep" {
 				concMu.Lock()
 				defer concMu.Unlock()
 			}
